@@ -46,7 +46,7 @@ EXC_PARENTS = {
     'InvalidTag': 'Exception',
     'HTTPError': 'Exception', 'HTTPStatusError': 'HTTPError', 'RequestError': 'HTTPError',
     'Full': 'Exception', 'Empty': 'Exception',
-    'KeyboardInterrupt': 'BaseException', 'Exception': 'BaseException',
+    'KeyboardInterrupt': 'BaseException', 'Exception': 'BaseException', 'SystemExit': 'BaseException', 'GeneratorExit': 'BaseException',
     'CancelledError': 'BaseException',
     'BodyError': 'Exception',      # what a `with` body may throw into a context manager
     'AnyError': 'Exception',       # an unspecified exception from an opaque callee
@@ -518,6 +518,25 @@ class Interp:
                 # function, inlined
                 yield st, Closure(fnode, 0, node.id)
                 return
+            if isinstance(fnode, (ast.FunctionDef, ast.AsyncFunctionDef)) and fnode.decorator_list:
+                if len(source.memo_decorators(fnode)) == len(fnode.decorator_list):
+                    # a MEMOISED module-level helper: a call either runs the real body or is answered from the cache - then
+                    # nothing of the body happens (no effect is repeated) and the result is that of an EARLIER call with equal
+                    # arguments, i.e. unknown state from this call's point of view
+                    inner = Closure(fnode, 0, node.id)
+                    name = node.id
+
+                    def memoised(interp, st2, args, kwargs, inner=inner, name=name):
+                        hit = st2.copy()
+                        hit.emit('memo_hit', function=name)
+                        yield hit, Unknown(f'cached:{name}()')
+                        yield from interp.call_closure(st2, inner, args, kwargs)
+
+                    yield st, Model(f'memoised:{name}', memoised)
+                    return
+                # some other decorator the engine has no semantics for: an unknown callable
+                yield st, Unknown(f'module:{node.id}')
+                return
             if top is not None and self._assigned_in_enclosing_function(rel, top, node.id):
                 # a variable of an ENCLOSING function that the sidecar does not bind (a closure variable a change started
                 # to use): whatever the enclosing function holds there
@@ -547,6 +566,17 @@ class Interp:
                 # an imported name, a module-level object that is not a literal, or a class of the module, none of which a
                 # sidecar models: an unknown object
                 v = Unknown(f'module:{node.id}')
+                # ... except the few library objects whose meaning is fixed and matters for control flow
+                for n in tree.body:
+                    if isinstance(n, ast.ImportFrom) and n.module == 'contextlib':
+                        for a in n.names:
+                            if (a.asname or a.name) == node.id and a.name == 'suppress':
+                                v = _SUPPRESS
+                    if isinstance(n, ast.Import):
+                        for a in n.names:
+                            if (a.asname or a.name) == node.id and a.name == 'contextlib':
+                                v = Obj('contextlib', suppress=_SUPPRESS)
+                                v._lenient = True
             yield st, v
 
     @staticmethod
@@ -1755,6 +1785,21 @@ class Interp:
             if len(results) > self.max_paths:
                 raise Unsupported('too many paths')
         return results
+
+
+def _suppress(interp, st, args, kwargs):
+    """contextlib.suppress(*classes): a context manager that swallows exceptions of those classes raised in its body"""
+    from .ops import CM
+    names = []
+    for a in args:
+        if isinstance(a, ExcClass):
+            names.append(a.name)
+        else:
+            raise Unsupported('contextlib.suppress of a non-class')
+    yield st, CM('suppress', suppress=names)
+
+
+_SUPPRESS = Model('contextlib.suppress', _suppress)
 
 
 class StarArg:
